@@ -11,7 +11,7 @@ fn case_of(prop: &str, seed: u64, kper: u64) -> Option<(u64, Option<Fault>)> {
     // fault enumeration: seed -> (base scenario, fault point)
     let base = seed / kper;
     let j = seed % kper;
-    let prof = Profile::for_prop(prop);
+    let prof = Profile::for_case(prop, base);
     let n = steps_for(base, &prof) as u64 + 1;
     let at = if kper >= n {
         if j >= n {
